@@ -943,18 +943,27 @@ class SklearnEKFAdapter(BaseEstimator):
 
         x0 = self._flatten_scoring_params()
 
-        def minimize_this(x: NDArray) -> float:
+        def minimize_this(x: NDArray, probing: bool = True) -> float:
             holdout_params = dict(self.get_params())
 
             scoring_params = self._inverse_flatten_scoring_params(x)
             self.set_params(**scoring_params)
 
-            score = self.score(X, y, sample_weight)
-
-            self.set_params(**holdout_params)
+            try:
+                score = self.score(X, y, sample_weight)
+            except (AssertionError, ValueError, np.linalg.LinAlgError):
+                if not probing:
+                    raise
+                # For the noise values the optimiser is probing the filter
+                # diverged or refused its own covariance: the worst score,
+                # not an error of the fit
+                score = np.inf
+            finally:
+                # also when scoring fails: never leave the probed noise behind
+                self.set_params(**holdout_params)
             return score
 
-        minimize_this(x0)
+        minimize_this(x0, probing=False)
 
         result = minimize(minimize_this, x0, tol=1.0e-1)
 
